@@ -630,6 +630,107 @@ func checkRangesMergedFn(p *core.Prog, r *core.Report, name string) {
 			r.Check(only, "C13.R6", name+"/extend-only-adjacent", "the chain is extended to a further range only when that range starts exactly at the chain's end", "the chain's last element can advance without the adjacency test having succeeded", p.Pos(a.ifi.Pos()))
 		}
 	}
+	// index and chain advance together: inside the squash loop the input index moves past an element exactly when that
+	// element becomes the chain's last — on every way round the loop and on every way out of it (an index bumped on the
+	// way out of the loop, without the element having joined the chain, loses that element)
+	for _, a := range adjs {
+		nph, ok := a.endBase.(*ssa.Phi)
+		if !ok {
+			continue
+		}
+		var loop *core.Loop
+		for _, l := range core.Loops(fn) {
+			if l.Header == nph.Block() {
+				loop = l
+			}
+		}
+		if loop == nil {
+			continue
+		}
+		for _, hin := range loop.Header.Instrs {
+			iph, ok := hin.(*ssa.Phi)
+			if !ok || iph == nph {
+				continue
+			}
+			if bt, ok := iph.Type().Underlying().(*types.Basic); !ok || bt.Info()&types.IsInteger == 0 {
+				continue
+			}
+			isInc := func(v ssa.Value) bool {
+				bo, ok := v.(*ssa.BinOp)
+				return ok && bo.Op == token.ADD && bo.X == ssa.Value(iph) && isConstInt(bo.Y, 1)
+			}
+			hasInc := false
+			for b := range loop.Body {
+				for _, in := range b.Instrs {
+					if v, ok := in.(ssa.Value); ok && isInc(v) {
+						hasInc = true
+					}
+				}
+			}
+			if !hasInc {
+				continue
+			}
+			flowing := func(from, to *ssa.BasicBlock, carried *ssa.Phi, other func(ssa.Value) bool) ssa.Value {
+				// the value of the carried variable on the edge from→to: the operand of a phi of `to` that merges the
+				// carried value with its updates, else the carried value itself
+				for _, tin := range to.Instrs {
+					tp, ok := tin.(*ssa.Phi)
+					if !ok {
+						break
+					}
+					related := false
+					for _, e := range tp.Edges {
+						if e == ssa.Value(carried) || other(e) {
+							related = true
+						}
+					}
+					if !related {
+						continue
+					}
+					for k, pred := range to.Preds {
+						if pred == from {
+							return tp.Edges[k]
+						}
+					}
+				}
+				return carried
+			}
+			okPairs := true
+			bad := ""
+			check := func(from, to *ssa.BasicBlock, iv, nv ssa.Value) {
+				if (iv == ssa.Value(iph)) != (nv == ssa.Value(nph)) {
+					okPairs = false
+					bad = p.Pos(core.InstrPos(from.Instrs[len(from.Instrs)-1]))
+				}
+			}
+			for k, pred := range loop.Header.Preds {
+				if loop.Body[pred] {
+					check(pred, loop.Header, iph.Edges[k], nph.Edges[k])
+				}
+			}
+			for b := range loop.Body {
+				for _, sb := range b.Succs {
+					if loop.Body[sb] {
+						continue
+					}
+					iv := flowing(b, sb, iph, isInc)
+					nv := flowing(b, sb, nph, func(v ssa.Value) bool {
+						for _, e := range nph.Edges {
+							if e == v && v != ssa.Value(nph) {
+								return true
+							}
+						}
+						return false
+					})
+					// only when the index is live after the loop (it is the outer loop's index)
+					if iv != ssa.Value(iph) || nv != ssa.Value(nph) {
+						check(b, sb, iv, nv)
+					}
+				}
+			}
+			r.Check(okPairs, "C13.R6", name+"/index-follows-chain/"+iph.Comment, "in the squash loop the input index advances past a range exactly when that range joins the chain, on every back edge and on every exit", "the index and the chain's last element can part ways at "+bad, p.Pos(iph.Pos()))
+		}
+	}
 	// unmerged elements are kept as they are: everything appended to the result is an element of the input or a NewRange result
 	okElems, n := true, 0
 	core.Instrs(fn, func(in ssa.Instruction) {
